@@ -426,6 +426,11 @@ func (v *vf) vf2(only func(fn *ssa.Function) bool) {
 							why = "file looked up in something other than the rotated-files map"
 						} else if f2, pb := core.LoadedField(core.Unwrap(t.Index)); f2 != R.PosFid || !sameOrigin(pb, pos) {
 							why = "rotated-files map is not indexed by this position's file id"
+						} else if iff, eqIdx := v.fidTest(fn, pos); iff != nil {
+							eq := iff.Block().Succs[eqIdx]
+							if t.Block() == eq || (len(eq.Preds) == 1 && eq.Dominates(t.Block())) {
+								why = "the rotated-files map is consulted on the edge where the active file's id EQUALS the position's file id (test flipped): rotated files are never read"
+							}
 						}
 					case *ssa.Extract:
 						if lk, ok := t.Tuple.(*ssa.Lookup); ok {
@@ -501,6 +506,34 @@ func (v *vf) hasFidTest(fn *ssa.Function, pos ssa.Value) bool {
 		}
 	}
 	return false
+}
+
+
+// fidTest: the live comparison of the active file's id with pos.Fid in fn: the If and the successor index on which
+// the ids are EQUAL.
+func (v *vf) fidTest(fn *ssa.Function, pos ssa.Value) (*ssa.If, int) {
+	R := v.p.R
+	for _, b := range fn.Blocks {
+		iff, ok := b.Instrs[len(b.Instrs)-1].(*ssa.If)
+		if !ok {
+			continue
+		}
+		bo, ok := iff.Cond.(*ssa.BinOp)
+		if !ok || (bo.Op != token.EQL && bo.Op != token.NEQ) {
+			continue
+		}
+		for _, pr := range [][2]ssa.Value{{bo.X, bo.Y}, {bo.Y, bo.X}} {
+			fa, _ := core.LoadedField(pr[0])
+			fb, pb := core.LoadedField(pr[1])
+			if fa == R.DFID && fb == R.PosFid && sameOrigin(pb, pos) {
+				if bo.Op == token.EQL {
+					return iff, 0
+				}
+				return iff, 1
+			}
+		}
+	}
+	return nil, 0
 }
 
 // dominatesInstr: instruction a dominates instruction b (same function).
